@@ -70,7 +70,7 @@ class PathDomain(Domain):
         v = val(t)
         return None if v is None else bool(v[1])
 
-    # state = (env, facts, events)   env: tuple of (name, expr-text) ; facts: frozenset (truth, text) ; events: tuple
+    # state = (env, facts, events)   env: tuple of (name, expr-text) ; facts: frozenset (truth, key text, parseable text) ; events: tuple
     @staticmethod
     def init():
         return ((), frozenset(), ())
@@ -105,7 +105,7 @@ class PathDomain(Domain):
                     if norm_text(val) == norm_text(d[t.id] if d.get(t.id) is not None else t.id) and (t.id not in d or d[t.id] is not None):
                         continue                # x = x (e.g. an inlined helper handing its argument back): nothing changes
                     d[t.id] = val
-                    facts = frozenset(f for f in facts if not self._mentions(f[1], t.id))
+                    facts = frozenset(f for f in facts if not self._mentions(f[2], t.id))
                 elif isinstance(t, (ast.Tuple, ast.List)):
                     for x in ast.walk(t):
                         if isinstance(x, ast.Name):
@@ -156,9 +156,9 @@ class PathDomain(Domain):
                 return state if known == tr else None
         if text in ('True', 'False'):
             return state if (text == 'True') == tr else None
-        if (not tr, text) in facts:
+        if (not tr, text, canon) in facts:
             return None
-        return (env, facts | {(tr, text)}, events)
+        return (env, facts | {(tr, text, canon)}, events)
 
     def effects(self, expr, state):
         env, facts, events = state
@@ -166,6 +166,12 @@ class PathDomain(Domain):
 
     def enter_loop(self, node, state):
         env, facts, events = state
+        # a loop that is not unrolled is summarised by the paths that run its body zero times or once (events would otherwise grow
+        # without bound): enough for "which calls can happen under which facts", not for counting
+        mark = ('loop', node.lineno, getattr(node, 'col_offset', 0))
+        if mark in events:
+            return ()
+        events = events + (mark,)
         d = dict(env)
         if isinstance(node, (ast.For, ast.AsyncFor)):
             for x in ast.walk(node.target):
@@ -178,17 +184,20 @@ class PathDomain(Domain):
         if node.value is None:
             return ((env, facts, events + (('ret', '<none>', node.lineno),)),)
         events = self._calls(node.value, env, events)
-        return ((env, facts, events + (('ret', norm_text(self._canon(node.value, env)), node.lineno),)),)
+        c_ = self._canon(node.value, env)
+        return ((env, facts, events + (('ret', norm_text(c_), node.lineno, c_),)),)
 
 
 class Path:
     def __init__(self, kind, state):
         self.kind = kind
         env, facts, events = state
-        self.facts = {t: tr for (tr, t) in facts}
-        self.events = [e for e in events if e[0] != 'ret']
+        self.facts = {t: tr for (tr, t, _s) in facts}
+        self.fact_src = {t: s_ for (tr, t, s_) in facts}        # parseable source of each fact (the keys have no spaces)
+        self.events = [e for e in events if e[0] not in ('ret', 'loop')]
         rets = [e for e in events if e[0] == 'ret']
         self.ret = rets[-1][1] if rets else None
+        self.ret_src = (rets[-1][3] if len(rets[-1]) > 3 else rets[-1][1]) if rets else None      # parseable form of .ret
         self.ret_line = rets[-1][2] if rets else None
 
     def calls(self, pred=None):
